@@ -18,6 +18,8 @@ import time
 from harness import common
 from harness.common import Run, coq_list
 from harness.translate import graphs as tgraphs
+from harness.translate import c15_fromdict as tfromdict
+from harness import c15_defs as cdefs
 
 META = dict(
     technique="Coq theorems (loop invariant of Kahn's algorithm with the path matrix; pigeonhole for completeness) about an executable "
@@ -28,16 +30,25 @@ META = dict(
                "reaching each node (inductive transitive closure), listed in that order; cyclic, self-referential, unknown-reference "
                "and isolated-node graphs are refused; every other graph is accepted (completeness of Kahn); the result does not "
                "depend on the iteration order of the ancestor sets.  Model tied to the code by exact comparison on all digraphs "
-               "on <= 3 (quick) / <= 4 (thorough) nodes, sampled 5-12 node graphs and all shipped model graphs, under 3 hash seeds.",
+               "on <= 3 (quick) / <= 4 (thorough) nodes, sampled 5-12 node graphs and all shipped model graphs, under 3 hash seeds.  "
+               "Extension 4: the graph from_dict builds from variable DEFINITIONS has exactly the edges 'p is a named parameter of v's function' "
+               "(keyword-only parameters with or without default; NamedInputFunction names; `then` keeps the inner function's), a non-variable "
+               "parameter is refused before any ordering, differing key sets are refused first; tied by a fail-closed ast translator and by "
+               "running from_dict on functions of every signature kind and comparing inside Coq.",
     level_note="Trusted: Coq kernel (theorems print 'Closed under the global context'); Python's sorted() on names and the harness "
                "canonicalisation name -> index; torch boolean indexing as modelled by list operations (exercised by the tie, not proved); "
-               "the key-set consistency check (variables.keys() vs direct_ancestors.keys()) is outside the model.",
+               "from_dict / get_named_parameters / NamedInputFunction.then / the key-set check are modelled (Dag/FromDict.v) starting from what "
+               "python's inspect.signature reports of a callable (inspect itself, incl. its treatment of functools.partial, is outside the model).",
     design_ref="DESIGN.md section 4 C15",
 )
 
 OBLIGATIONS = [
     "C15_topological", "C15_exact", "C15_refuses", "C15_accepts", "C15_error_meaning", "C15_no_model_artefact",
     "C15_deterministic", "C15_set_order_irrelevant", "C15_direct_children", "C15_shipped_graphs",
+    # extension 4: from the definitions (from_dict / get_named_parameters / then / key-set check) to the graph
+    "C15_named_parameters", "C15_from_dict_edges", "C15_from_dict_refuses_signature", "C15_from_dict_refuses_unknown",
+    "C15_then_keeps_parents", "C15_from_dict_closures", "C15_from_dict_params_only", "C15_from_dict_accepts_iff",
+    "C15_from_dict_error_meaning", "C15_key_set_check", "C15_from_dict_source", "C15_shipped_definitions",
 ]
 
 HDR = "From Coq Require Import List.\nFrom Leaspy Require Import Dag.DagModel.\nImport ListNotations.\n"
@@ -49,7 +60,14 @@ _GRAPHS_CACHE: dict = {}
 def translate(run: Run) -> bool:
     gs = tgraphs.write_gen(run)
     _GRAPHS_CACHE["graphs"] = gs
-    return gs is not None
+    ok_fd = tfromdict.translate(run)
+    if gs is not None:
+        try:
+            run.gen("GenC15Defs", cdefs.shipped_defs_coq(gs))
+        except (KeyError, ValueError, TypeError) as e:
+            run.broken("translate:GenC15Defs", f"{type(e).__name__}: {e}", kind="broken-translation")
+            return False
+    return gs is not None and ok_fd
 
 
 # ----------------------------------------------------------------------------- independent oracle
@@ -90,6 +108,22 @@ def oracle(names, anc):
     return dict(reasons=reasons, desc=desc)
 
 
+def case_input(case, **over):
+    """What a failure records (and `replay` reads back)."""
+    d = dict(names=case["names"], anc=case.get("anc"), mode=case.get("mode", "ctor"))
+    for k in ("defs", "var_names"):
+        if k in case:
+            d[k] = case[k]
+    d.update(over)
+    return d
+
+
+def to_wire(c):
+    if c.get("mode") in ("defs", "ctor_keys"):
+        return cdefs.wire(c)
+    return dict(names=c["names"], anc=c["anc"], mode=c.get("mode", "ctor"))
+
+
 def judge(run: Run, case, obs, orc=None):
     """Compare one observation with the property; returns the list of failure signatures (also recorded)."""
     names, anc = case["names"], case["anc"]
@@ -98,7 +132,7 @@ def judge(run: Run, case, obs, orc=None):
 
     def fail(sig, what, expected=None, observed=None):
         sigs.append(sig)
-        run.fail(sig, what, dict(names=names, anc=anc, mode=case.get("mode", "ctor")), expected=expected, observed=observed)
+        run.fail(sig, what, case_input(case, anc=anc), expected=expected, observed=observed)
 
     if "err" in obs:
         # any exception is a refusal; which check fired is a matter for the correspondence, not for the property
@@ -434,7 +468,7 @@ def run_impl(cases, hash_seeds=HASH_SEEDS):
     """Run harness.dagrun in one sub-process per PYTHONHASHSEED (in parallel); returns {seed: [observation]}."""
     tmp = tempfile.mkdtemp(prefix="c15_")
     fin = os.path.join(tmp, "cases.json")
-    json.dump([dict(names=c["names"], anc=c["anc"], mode=c.get("mode", "ctor")) for c in cases], open(fin, "w"))
+    json.dump([to_wire(c) for c in cases], open(fin, "w"))
     procs = []
     for hs in hash_seeds:
         fout = os.path.join(tmp, f"out_{hs}.json")
@@ -459,7 +493,7 @@ def run_impl(cases, hash_seeds=HASH_SEEDS):
 def strip(o):
     """Observation without the free-text message (set reprs inside messages legitimately vary with the hash seed)."""
     if "err" in o:
-        return {"err": o["err"][:2]}
+        return dict(o, err=o["err"][:2])
     return o
 
 
@@ -570,6 +604,139 @@ def check(run: Run, graphs):
                                             has_sources=g["has_sources"]) for g in graphs]
 
 
+# ----------------------------------------------------------------------------- extension 4: from the definitions to the graph
+
+
+def defs_cases(run: Run):
+    thorough = run.tier == "thorough"
+    cases = cdefs.exhaustive_signature_cases(thorough)
+    rng = run.rng("defs")
+    for i in range(6000 if thorough else 2000):
+        if i % 2:
+            base = sampled_case(rng, FAMILIES[(i // 2) % len(FAMILIES)])
+        else:
+            n = rng.randint(2, 4)
+            nm = list(NAMES_A[:n] if rng.random() < 0.5 else NAMES_B[:n])
+            pool = nm + ([UNKNOWN_A] if rng.random() < 0.15 else [])
+            dens = rng.choice([0.2, 0.35, 0.5])
+            anc = {c: [p for p in pool if p != c and rng.random() < dens] for c in nm}
+            if rng.random() < 0.7:      # mostly acyclic: keep only edges going forward along a random permutation
+                perm = list(nm)
+                rng.shuffle(perm)
+                anc = {c: [p for p in anc[c] if p not in perm or perm.index(p) < perm.index(c)] for c in nm}
+            base = dict(names=nm, anc=anc, family=f"small-{n}")
+        cases.append(cdefs.sampled_defs_case(rng, base, defect=(i % 4 == 3)))
+    rng = run.rng("ctor-keys")
+    bases = [sampled_case(rng, FAMILIES[i % len(FAMILIES)]) for i in range(1200 if thorough else 400)]
+    bases += [dict(names=list(NAMES_A[:n]), anc={c: [p for p in NAMES_A[:n] if p < c and rng.random() < 0.6] for c in NAMES_A[:n]}, family="small")
+              for n in (1, 2, 2, 3, 3, 3) for _ in range(10)]
+    cases += cdefs.ctor_keys_cases(rng, bases)
+    return cases
+
+
+def judge_defs(run: Run, c, o):
+    """Property-level verdict on one definitions / key-set case (python only); returns the failure signatures."""
+    sigs = []
+    if c["mode"] == "ctor_keys":
+        if set(c["var_names"]) != set(c["names"]):
+            if "err" not in o:
+                sigs.append("accepts:inconsistent-key-sets")
+                run.fail(sigs[-1], "a graph is built although the keys of `variables` and of `direct_ancestors` differ "
+                         "(a name known only as a key / a parent is silently added or a variable silently dropped)",
+                         case_input(c), expected="refused", observed=dict(order=o["order"]))
+            return sigs
+        return judge(run, c, o)
+    seen = o.get("sigs") or {}
+    for n, d in c["defs"].items():
+        if d is not None and d["form"] in ("def", "lambda") and seen.get(n) != d["sig"]:
+            run.broken("harness:signature", f"inspect.signature reports {seen.get(n)} for a function written as {d['sig']}", kind="broken-correspondence")
+            return ["harness"]
+    exp = {n: cdefs.expected_parents(d, seen.get(n)) for n, d in c["defs"].items()}
+    if any(v is None for v in exp.values()):
+        return sigs            # a function that cannot be given by name only: whether / how it is refused is compared by the model
+    got = o.get("parents")
+    if got is not None:
+        for n in c["names"]:
+            dropped = sorted(set(exp[n]) - set(got[n]))
+            invented = sorted(set(got[n]) - set(exp[n]))
+            for sig, lst, what in (("from_dict:parameter-dropped", dropped, "named parameter(s) %s of the function defining `%s` are not among its direct ancestors"),
+                                   ("from_dict:parent-invented", invented, "direct ancestor(s) %s of `%s` are no named parameter of its function")):
+                if lst:
+                    sigs.append(sig)
+                    run.fail(sig, what % (lst, n), case_input(c, anc=exp), expected=sorted(set(exp[n])), observed=got[n])
+        if "dag_parents" in o and o["dag_parents"] != got:
+            sigs.append("from_dict:ancestors-differ-from-declared")
+            run.fail(sigs[-1], "dag.direct_ancestors differs from what the variables' get_ancestors_names() return", case_input(c, anc=exp),
+                     expected=got, observed=o["dag_parents"])
+    return sigs + judge(run, dict(c, anc=exp), o)
+
+
+def check_defs(run: Run, graphs):
+    t = time.time()
+    cases = defs_cases(run)
+    res, errs = run_impl(cases)
+    run.log(f"from_dict / key-set: {len(cases)} definition cases run under {len(res)} hash seeds in {time.time() - t:.1f}s")
+    for e in errs:
+        run.broken("impl-runner:defs", e, kind="broken-correspondence")
+    if not res:
+        return
+    base_seed = HASH_SEEDS[0] if HASH_SEEDS[0] in res else sorted(res)[0]
+    base = res[base_seed]
+    for hs, obs in res.items():
+        for i, (a, b) in enumerate(zip(base, obs)):
+            if hs != base_seed and strip(a) != strip(b):
+                run.fail("nondeterministic:hash-seed", f"result differs between PYTHONHASHSEED={base_seed} and {hs}",
+                         case_input(cases[i], hash_seeds=[base_seed, hs]), expected=strip(a), observed=strip(b))
+    lits = {"defs": {}, "ctor_keys": {}}
+    judged = {}
+    for i, (c, o) in enumerate(zip(cases, base)):
+        judged[i] = judge_defs(run, c, o)
+        try:
+            lit = cdefs.defs_literal(c, o) if c["mode"] == "defs" else cdefs.ctor_literal(c, o)
+        except KeyError as e:
+            run.fail("result:foreign-name", f"the result mentions a name that is not a variable: {e}", case_input(c), observed=strip(o))
+            continue
+        code = o["err"][1] if "err" in o else 0
+        run.case(("defs", lit), nontrivial=True)
+        run.count("family", c["family"])
+        run.count("mode", c["mode"])
+        run.count("outcome", {0: "ok", 1: "refused:unknown-ref", 2: "refused:self-loop", 3: "refused:isolated", 4: "refused:not-a-dag",
+                              7: "refused:inconsistent-keys", 8: "refused:not-keyword-only"}.get(code, f"refused:other:{o.get('err', ['?'])[0]}"))
+        for f in c.get("forms", []):
+            run.count("function form (defs)", f)
+        lits[c["mode"]].setdefault(lit, []).append(i)
+    for fam in ("defs:exhaustive-signature", "defs:diamond-late-root", "ctor-keys:both"):
+        for i, c in enumerate(cases):
+            if c["family"] == fam and (fam != "defs:exhaustive-signature" or len(c["defs"]["v"]["sig"]) == 2):
+                run.sample(dict(case_input(c), family=fam, observed=strip(base[i])))
+                break
+    shipped = {}
+    for g in graphs or []:
+        if "defs" in g:
+            shipped.setdefault(cdefs.shipped_literal(g), []).append(g["label"])
+    t = time.time()
+    for mode, ctype, checker, extra in (("defs", "(list vdef * observed * list (list nat))", "from_dict_agrees", list(shipped)),
+                                        ("ctor_keys", "(list nat * graph * observed)", "ctor_agrees", [])):
+        keys = list(lits[mode]) + extra
+        bad = run.vm_bad_indices(checker, cdefs.HDR, ctype, keys, checker, shard=300)
+        run.extra[f"distinct_{mode}_cases_evaluated_in_coq"] = len(keys)
+        if bad:
+            unexplained = [i for b in bad if keys[b] in lits[mode] for i in lits[mode][keys[b]] if not judged[i]]
+            labels = [lab for b in bad if keys[b] in shipped for lab in shipped[keys[b]]]
+            detail = f"{len(bad)} distinct cases on which the implementation and Dag.FromDict.{checker[:-7]} disagree"
+            if labels:
+                detail += f"; shipped models: {labels[:4]}"
+            if unexplained:
+                i = min(unexplained, key=lambda k: len(json.dumps(to_wire(cases[k]))))
+                detail += f"; {len(unexplained)} are not property failures by the oracle, smallest: {json.dumps(to_wire(cases[i]))} observed={strip(base[i])}"
+            elif not labels:
+                i = lits[mode][keys[bad[0]]][0]
+                detail += f"; all of them are property failures reported above, e.g. {json.dumps(to_wire(cases[i]))[:600]}"
+            run.broken(f"correspondence:{checker[:-7]}", detail, kind="broken-correspondence")
+    run.extra["shipped_definitions_evaluated_in_coq"] = len(shipped)
+    run.log(f"from_dict / ctor models evaluated inside Coq in {time.time() - t:.1f}s")
+
+
 def main(run: Run):
     ok_t = translate(run)
     graphs = _GRAPHS_CACHE.get("graphs")
@@ -577,13 +744,18 @@ def main(run: Run):
         run.prove("C15", OBLIGATIONS)
     run.assumptions += [
         "nodes are identified with their rank in Python's sorted() order of the names (sorted() itself is outside the model)",
-        "the key-set consistency check variables.keys() == direct_ancestors.keys() is outside the model",
+        "a python callable is abstracted by what inspect.signature reports of it (name, kind, default of each parameter); inspect.signature itself, "
+        "bound_to's optional check_arguments callback and _stratify_variables are outside the model",
     ]
     run.trusted.append("harness/dagrun.py + canonicalisation name -> index in harness/props/c15.py")
+    run.trusted.append("harness/c15_defs.py (function descriptions -> python source / Coq literals) and python's inspect.signature as the description of a plain callable")
     run.explanation = ("Theorems about Dag.DagModel.build hold for every digraph of every size (induction over Kahn's loop). The model is "
                        "tied to dag.py by running both on the same graphs and comparing inside Coq; an independent DFS oracle turns any "
-                       "disagreement that matters into a concrete failing graph.")
+                       "disagreement that matters into a concrete failing graph.  Dag.FromDict.from_dict (extension 4) covers the step before: "
+                       "from the variable definitions (function signatures, NamedInputFunction, then) to that graph, tied by an ast translator "
+                       "and by running the real from_dict on functions of every signature kind.")
     check(run, graphs)
+    check_defs(run, graphs)
     return run.finish()
 
 
@@ -594,6 +766,9 @@ def replay(run: Run, path: str):
         print("replay: this file records a broken obligation / correspondence; re-running the check:", [b["name"] for b in d.get("broken", [])])
         return main(run)
     case = dict(names=inp["names"], anc=inp["anc"], mode=inp.get("mode", "ctor"))
+    for k in ("defs", "var_names"):
+        if k in inp:
+            case[k] = inp[k]
     seeds = tuple(inp.get("hash_seeds", HASH_SEEDS))
     cases = [case]
     if "other_names" in inp:
@@ -603,12 +778,13 @@ def replay(run: Run, path: str):
         print(e)
     bad = bool(errs)
     first = None
+    new_mode = case["mode"] in ("defs", "ctor_keys")
     for hs in seeds:
         if hs not in res:
             continue
         for k, o in enumerate(res[hs]):
             print(f"PYTHONHASHSEED={hs} case {k}: {json.dumps(strip(o))}")
-            sigs = judge(run, cases[k], o)
+            sigs = judge_defs(run, cases[k], o) if new_mode else judge(run, cases[k], o)
             if sigs:
                 bad = True
                 print("   property failures:", sigs)
@@ -617,14 +793,23 @@ def replay(run: Run, path: str):
             elif strip(o) != first:
                 bad = True
                 print("   differs from the first observation (non-deterministic / order dependent)")
-    orc = oracle(case["names"], case["anc"])
-    print("oracle: expected", "refusal (" + ", ".join(orc["reasons"]) + ")" if orc["reasons"] else "acceptance")
+    if not new_mode:
+        orc = oracle(case["names"], case["anc"])
+        print("oracle: expected", "refusal (" + ", ".join(orc["reasons"]) + ")" if orc["reasons"] else "acceptance")
     if res:
         o = res[sorted(res)[0]][0]
         try:
-            lit, _ = canon(case, o)
-            b = run.vm_bad_indices("replay", HDR, "graph * observed", [lit], "(fun c => agrees (fst c) (snd c))")
-            print("model (Coq, Dag.DagModel.build) agrees with the implementation:", b == [])
+            if case["mode"] == "defs":
+                b = run.vm_bad_indices("replay", cdefs.HDR, "(list vdef * observed * list (list nat))", [cdefs.defs_literal(case, o)], "from_dict_agrees")
+                which = "Dag.FromDict.from_dict"
+            elif case["mode"] == "ctor_keys":
+                b = run.vm_bad_indices("replay", cdefs.HDR, "(list nat * graph * observed)", [cdefs.ctor_literal(case, o)], "ctor_agrees")
+                which = "Dag.FromDict.ctor"
+            else:
+                lit, _ = canon(case, o)
+                b = run.vm_bad_indices("replay", HDR, "graph * observed", [lit], "(fun c => agrees (fst c) (snd c))")
+                which = "Dag.DagModel.build"
+            print(f"model (Coq, {which}) agrees with the implementation:", b == [])
             bad = bad or b != []
         except (KeyError, ValueError) as e:
             print("result mentions a foreign name:", e)
